@@ -20,6 +20,23 @@ def step (op res : String) : List String :=
     else if res.startsWith "start-err" then
       ["DIVERGE dom model=starts", s!"FAIL C13 server.Start refused a valid configuration (sections {secs}, chain {chain}): {res}"]
     else match words res with
+      | ["ok2", a, b, a2] =>
+        -- two DHCPv4 listeners, `range` named once (harness/start.go, startRange2): one instance serves both — client A on the
+        -- first listener and client B on the second get different addresses, A asking on the second keeps its own
+        let v (t : String) : String := ((t.splitOn "=").getD 1 "")
+        if v a != "none" && v b != "none" && v a != v b && v a == v a2 then ["br:serve.start.range2"]
+        else ["DIVERGE dom model=one-chain-for-all-listeners",
+              s!"FAIL C02 two listeners, one range plugin: client A got {v a} on the first listener, client B {v b} on the second, A again on the second {v a2} (an address bound to two clients, or a client given another address than its first)",
+              s!"FAIL C13 two listeners of one protocol do not serve with the one chain that was loaded: {res}"]
+      | ["ok", r6, _r4, during] =>
+        -- `verifprobe`: a plugin whose set-up sends a SOLICIT to the configured address (harness/start.go). Nothing may answer
+        -- while the plugins are being set up; afterwards the server answers with the prepared ADVERTISE
+        if during == "during-setup:quiet" && r6 == "6:2" then ["br:serve.start.probe"]
+        else if during != "during-setup:quiet" then
+          ["DIVERGE dom model=nothing-answers-before-the-chain-is-loaded",
+           s!"FAIL C13 a request that arrived while the plugins were being set up was answered: not by the configured handlers ({res})"]
+        else ["DIVERGE dom model=every-configured-section-answers",
+              s!"FAIL C13 the server was started with a pass-through plugin: a request was answered {r6}, the prepared ADVERTISE was expected"]
       | ["ok", r6, r4] =>
         let want6 := if has6 then "6:2" else "6:-"
         let want4 := if has4 then "4:2" else "4:-"
